@@ -168,6 +168,7 @@ class Results:
     def add_fail(self, items, line):
         self.nfail += 1
         sz = None
+        seen = set()
         for it in items.split('|'):
             if it.startswith('prop:'):
                 _, key, what = it.split(':', 2)
@@ -177,6 +178,9 @@ class Results:
                 e = self.corr.setdefault(key, [0, None])
             else:
                 raise vf.Infra('unexpected oracle item %r' % it)
+            if key in seen:
+                continue
+            seen.add(key)
             e[0] += 1
             if sz is None:
                 sz = req_size(line)
